@@ -121,3 +121,6 @@ func (s *Session) VfEnc() *EncryptionSession { return s.encryption }
 func (e *EncryptionSession) VfSeqSnap() [4]uint64 {
 	return [4]uint64{uint64(e.reglSeqHandler.highest), e.reglSeqHandler.bitMap, uint64(e.prioSeqHandler.highest), e.prioSeqHandler.bitMap}
 }
+
+// VfPeerSession returns the (pre-created) session for ip.
+func (st *State) VfPeerSession(ip netip.Addr) *Session { return st.sessions[ip] }
